@@ -1,3 +1,4 @@
 SPECIFICATION Spec
 CONSTANT DirEntries = TRUE
+CONSTANT Truncates = TRUE
 INVARIANTS RoundTrip ListIsCreated ViewIsTree DistinctSiblings Emit
